@@ -168,6 +168,48 @@ inductive Step where
   | done
   deriving DecidableEq, Repr
 
+/-- `t_TIME_LITERAL`: `T'.*?'` -/
+def timeLit (s : List Char) : Option (Tok × List Char) :=
+  match s with
+  | t :: '\'' :: r => if t == 'T' || t == 't' then (untilQuote r).map fun (a, b) => (⟨"TIME_LITERAL", String.ofList a⟩, b) else none
+  | _ => none
+
+/-- `t_STRING_LITERAL`: `'.*?'` -/
+def strLit (s : List Char) : Option (Tok × List Char) :=
+  match s with
+  | '\'' :: r => (untilQuote r).map fun (a, b) => (⟨"STRING_LITERAL", String.ofList a⟩, b)
+  | _ => none
+
+/-- `t_BIND_NAME`: `[:][a-zA-Z_][a-zA-Z0-9_]*` -/
+def bindName (s : List Char) : Option (Tok × List Char) :=
+  match s with
+  | ':' :: r => (ident r).map fun (a, b) => (⟨"BIND_NAME", String.ofList a⟩, b)
+  | _ => none
+
+/-- The token rules in the order of PLY's master regex: the *first* alternative that matches wins. -/
+def tokenAt (s : List Char) : Option (Tok × List Char) :=
+  match timeLit s with
+  | some x => some x
+  | none =>
+  match strLit s with
+  | some x => some x
+  | none =>
+  match range s with
+  | some x => some x
+  | none =>
+  match numeric s with
+  | some x => some x
+  | none =>
+  match qualified s with
+  | some x => some x
+  | none =>
+  match simple s with
+  | some x => some x
+  | none =>
+  match bindName s with
+  | some x => some x
+  | none => punct s
+
 /-- One step of the PLY lexer at the head of the input. -/
 def step (s : List Char) : Step :=
   match s with
@@ -176,40 +218,9 @@ def step (s : List Char) : Step :=
     if c == ' ' || c == '\t' then .skip cs                       -- t_ignore
     else if c == '\n' then .skip (span (· == '\n') s).2          -- t_newline (discarded)
     else
-      -- t_TIME_LITERAL  T'.*?'
-      let time : Option (Tok × List Char) := match s with
-        | t :: '\'' :: r => if t == 'T' || t == 't' then (untilQuote r).map fun (a, b) => (⟨"TIME_LITERAL", String.ofList a⟩, b) else none
-        | _ => none
-      match time with
+      match tokenAt s with
       | some (t, r) => .tok t r
-      | none =>
-        let str : Option (Tok × List Char) := match s with
-          | '\'' :: r => (untilQuote r).map fun (a, b) => (⟨"STRING_LITERAL", String.ofList a⟩, b)
-          | _ => none
-        match str with
-        | some (t, r) => .tok t r
-        | none =>
-          match range s with
-          | some (t, r) => .tok t r
-          | none =>
-            match numeric s with
-            | some (t, r) => .tok t r
-            | none =>
-              match qualified s with
-              | some (t, r) => .tok t r
-              | none =>
-                match simple s with
-                | some (t, r) => .tok t r
-                | none =>
-                  let bind : Option (Tok × List Char) := match s with
-                    | ':' :: r => (ident r).map fun (a, b) => (⟨"BIND_NAME", String.ofList a⟩, b)
-                    | _ => none
-                  match bind with
-                  | some (t, r) => .tok t r
-                  | none =>
-                    match punct s with
-                    | some (t, r) => .tok t r
-                    | none => .error
+      | none => .error
 
 /-- Tokenise the whole input (fuel = input length + 1 suffices: every step consumes input). -/
 def lexAll : Nat → List Char → Option (List Tok)
